@@ -117,6 +117,15 @@ CATALOGUE: list[tuple] = [
     ("S-order-overlap-ord-form", ["C02"], CHOICE, "        return any(a.start <= v <= a.end for v in variants if len(v) == 1)", "        return any(ord(a.start) <= ord(v) <= ord(a.end) for v in variants if len(v) == 1)", "silent", ""),
     ("S-error-context-named-flag", ["C13"], EXC, "    lines = text.splitlines(keepends=True)\n    cumulative_length = 0", "    lines = text.splitlines(True)\n    cumulative_length = 0", "silent", ""),
     ("S-skipuntil-min-builtin", ["C02", "C16"], TERMINALS, "            if pos != -1 and (best_index is None or pos < best_index):\n                best_index = pos", "            if pos != -1:\n                best_index = pos if best_index is None else min(best_index, pos)", "silent", ""),
+    ("scanner-no-trivia-before-assign", ["C10"], SCANNER, "        self.skip_trivia()\n\n        if self.peek() == \"=\":\n            self.emit(TokenKind.ASSIGN_OP, self.next())\n        else:\n            return self.error(\"expected the assignment operator\")", "        if self.peek() == \"=\":\n            self.emit(TokenKind.ASSIGN_OP, self.next())\n        else:\n            return self.error(\"expected the assignment operator\")", "fire", "TRIVIA"),
+    ("scanner-no-trivia-in-range", ["C10"], SCANNER, "            self.emit(TokenKind.CHAR, value)\n            self.skip_trivia()\n\n            if value := self.scan(RE_RANGE_OP):", "            self.emit(TokenKind.CHAR, value)\n\n            if value := self.scan(RE_RANGE_OP):", "fire", "TRIVIA"),
+    ("S-scanner-redundant-skip-removed", ["C10"], SCANNER, "        self.skip_trivia()\n        self.accept_expression()\n        self.skip_trivia()\n\n        if self.peek() == \")\":\n            self.emit(TokenKind.RPAREN, self.next())\n        else:\n            self.error(\"expected a closing paren\")\n\n        self.accept_postfix_op()", "        self.accept_expression()\n\n        if self.peek() == \")\":\n            self.emit(TokenKind.RPAREN, self.next())\n        else:\n            self.error(\"expected a closing paren\")\n\n        self.accept_postfix_op()", "silent", ""),
+    ("stack-drop-wrong-end", ["C05", "C09"], STACK, "        size = len(self.popped)\n        del self.popped[size - dropped : size - keep]", "        discard = dropped - keep\n        if discard:\n            del self.popped[-discard:]", "fire", "REP-INVARIANT"),
+    ("stack-clear-not-reversed", ["C09"], STACK, "            self.popped.extend(reversed(self.items[:remained_count]))", "            self.popped.extend(self.items[:remained_count])", "fire", "REP-INVARIANT"),
+    ("S-stack-restore-slice-form", ["C09", "C05"], STACK, "            recovered = self.popped[new_size:]\n            del self.popped[new_size:]\n            self.items.extend(reversed(recovered))", "            recovered = self.popped[-rewind_count:]\n            del self.popped[-rewind_count:]\n            self.items.extend(recovered[::-1])", "silent", ""),
+    ("peek-fail-outside-suppress", ["C07"], TERMINALS, "                state.pos += len(value)\n                return True\n\n            state.fail(value)\n        return False\n\n    def generate(self, gen: Builder, matched_var: str, pairs_var: str) -> None:\n        \"\"\"Emit Python code for a PEEK", "                state.pos += len(value)\n                return True\n\n        state.fail(value)\n        return False\n\n    def generate(self, gen: Builder, matched_var: str, pairs_var: str) -> None:\n        \"\"\"Emit Python code for a PEEK", "fire", "R5"),
+    ("snapshotting-int-class-level-list", ["C15"], "src/pest/checkpoint_int.py", "    def __init__(self, value: int = 0) -> None:\n        self._value: int = value\n        self._checkpoints: list[int] = []", "    _checkpoints: list[int] = []\n\n    def __init__(self, value: int = 0) -> None:\n        self._value: int = value", "fire", "CLASS-MUTABLE"),
+    ("rule-mask-mixes-silent", ["C08"], RULE, "            if not rule or not rule.modifier & (NONATOMIC | COMPOUND):\n                # Atomic rule silences children", "            if not rule or not rule.modifier & (SILENT | NONATOMIC | COMPOUND):\n                # Atomic rule silences children", "fire", "MASK-AXES"),
 ]
 
 
